@@ -10,6 +10,12 @@ pub mod c02;
 pub mod c03;
 pub mod c09;
 pub mod c15;
+pub mod algo;
+pub mod c04;
+pub mod c05;
+pub mod c06;
+pub mod c07;
+pub mod c08;
 
 #[derive(Clone, Copy, Debug, PartialEq, Eq)]
 pub enum Tier {
@@ -57,7 +63,7 @@ pub trait Prop: Sync + Send {
 }
 
 pub fn all() -> Vec<&'static dyn Prop> {
-    vec![&c01::C01, &c02::C02, &c03::C03, &c09::C09, &c15::C15]
+    vec![&c01::C01, &c02::C02, &c03::C03, &c09::C09, &c15::C15, &c04::C04, &c05::C05, &c06::C06, &c07::C07, &c08::C08]
 }
 
 pub fn by_id(id: &str) -> Option<&'static dyn Prop> {
